@@ -42,12 +42,21 @@ def new_line(slot, cls, kind, n):
 
 
 # ------------------------------------------------------------------ op alphabets
+def front_op(rng, n, present):
+    """`g.removeEdge(v, g.getOutNeighbours(v).front())`: an argument that refers into the list being edited"""
+    if present and rng.random() < 0.8:
+        v = rng.choice(sorted(present))[rng.choice([0, 0, 1])]
+    else:
+        v = rng.randrange(n)
+    return f"removeFrontEdge 0 {v}"
+
+
 def op_simple(rng, cls, kind, n, present, force_p=0.0, setlabel=True, dedup=False, weights=None):
     """one valid op for dir/und with n >= 1 vertices; `present` = set of pairs believed present
     (used only to bias choices toward interesting cases, never trusted)."""
     w = weights or {}
     choices = [("addEdge", 40), ("removeEdge", 18), ("removeSelfLoops", 3),
-               ("removeVertexFromEdgeList", 6), ("clearEdges", 2), ("resize", 4)]
+               ("removeVertexFromEdgeList", 6), ("clearEdges", 2), ("resize", 4), ("removeFrontEdge", 5)]
     if cls == "dir":
         choices.append(("addReciprocalEdge", 6))
     if setlabel and kind != "none":
@@ -57,6 +66,8 @@ def op_simple(rng, cls, kind, n, present, force_p=0.0, setlabel=True, dedup=Fals
     names = [c[0] for c in choices]
     ws = [w.get(c[0], c[1]) for c in choices]
     verb = rng.choices(names, ws)[0]
+    if verb == "removeFrontEdge":
+        return front_op(rng, n, present)
     if verb in ("addEdge", "addReciprocalEdge"):
         if present and rng.random() < 0.25:
             i, j = rng.choice(sorted(present))
@@ -101,12 +112,14 @@ def op_simple(rng, cls, kind, n, present, force_p=0.0, setlabel=True, dedup=Fals
 def op_multi(rng, cls, n, present, force_p=0.0, dedup=False):
     choices = [("addEdge", 14), ("addMultiedge", 26), ("removeEdge", 10), ("removeMultiedge", 14),
                ("setEdgeMultiplicity", 16), ("removeSelfLoops", 3), ("removeVertexFromEdgeList", 6),
-               ("clearEdges", 2), ("resize", 4)]
+               ("clearEdges", 2), ("resize", 4), ("removeFrontEdge", 5)]
     if cls == "dmulti":
         choices += [("addReciprocalEdge", 3), ("addReciprocalMultiedge", 3)]
     if dedup:
         choices.append(("removeDuplicateEdges", 8))
     verb = rng.choices([c[0] for c in choices], [c[1] for c in choices])[0]
+    if verb == "removeFrontEdge":
+        return front_op(rng, n, present)
 
     def pair(bias=0.6):
         if present and rng.random() < bias:
@@ -139,12 +152,14 @@ def op_multi(rng, cls, n, present, force_p=0.0, dedup=False):
 
 def op_weighted(rng, cls, n, present, force_p=0.0, dedup=False, wlo=-8, whi=16):
     choices = [("addEdge", 36), ("setEdgeWeight", 20), ("removeEdge", 18), ("removeSelfLoops", 3),
-               ("removeVertexFromEdgeList", 6), ("clearEdges", 2), ("resize", 4)]
+               ("removeVertexFromEdgeList", 6), ("clearEdges", 2), ("resize", 4), ("removeFrontEdge", 5)]
     if cls == "dw":
         choices.append(("addReciprocalEdge", 3))
     if dedup:
         choices.append(("removeDuplicateEdges", 8))
     verb = rng.choices([c[0] for c in choices], [c[1] for c in choices])[0]
+    if verb == "removeFrontEdge":
+        return front_op(rng, n, present)
 
     def pair(bias=0.6):
         if present and rng.random() < bias:
